@@ -16,6 +16,14 @@ fn check_accessors(cfg: &Cfg, s: &dyn Subject) -> Result<(), (String, String, St
     if got != want {
         return Err(("display-mismatch".into(), got, want));
     }
+    // printed through a format spec (a table column, an explicit sign): the parameters must not pick up
+    // the caller's width / sign flags; padding around the WHOLE text (Formatter::pad) is accepted
+    for (spec, name) in [(0u8, "{:>24}"), (1, "{:<24}"), (2, "{:+}")] {
+        let g = s.disp_spec(spec);
+        if g.trim() != want {
+            return Err((format!("display-mismatch-with-{}", name), g, want));
+        }
+    }
     if cfg.kind.has_period_trait() {
         let p = s.period();
         if p != Some(cfg.p[0]) {
